@@ -170,6 +170,69 @@ def queries(h, cfg):
             bad.append(z3.Extract(k, k, val) != ob)
         return a, z3.Or(*bad)
 
+    # ---- (5) sequences of Output / SetClr transactions with no idle cycle in between -----------------------
+    def seq_query(ops):
+        """ops: tuple over {'OW','SW','OR'}; preceded by an Output write (establishes the state), followed by a final
+        Output read.  Reference: a register write completing at frame T (last chunk) is visible to a read whose
+        first chunk is issued at frame >= T+2; a read snapshots the Output bits in the frame of its first chunk."""
+        def length(h):
+            n = nchunks(h, "Output")
+            tot = n                                   # initial write
+            for op in ops:
+                tot += nchunks(h, "SetClr") if op == "SW" else n
+            return tot + 1 + n + 1                    # idle, final read, data
+
+        def build(h, fr):
+            a, OV, t = write_reg(h, fr, 0, "Output", P)
+            events = [(t - 1 + 2, "O", OV)]           # (effective frame, kind, value)
+            reads = []
+            for op in ops:
+                if op == "OW":
+                    a2, V, t = write_reg(h, fr, t, "Output", P)
+                    events.append((t - 1 + 2, "O", V))
+                elif op == "SW":
+                    a2, V, t = write_reg(h, fr, t, "SetClr", 2 * P)
+                    events.append((t - 1 + 2, "S", V))
+                else:
+                    s_, e_ = h.regs["Output"]
+                    a2, got = [], []
+                    t0 = t
+                    for j in range(e_ - s_):
+                        a2 += rd(h, fr[t + j], s_ + j)
+                        got.append(fr[t + j + 1].sig(h.g.bus.r_data))
+                    t += e_ - s_
+                    reads.append((t0, got[0] if len(got) == 1 else z3.Concat(*reversed(got))))
+                a += a2
+            a += idle(h, fr[t])
+            t += 1
+            s_, e_ = h.regs["Output"]
+            got = []
+            for j in range(e_ - s_):
+                a += rd(h, fr[t + j], s_ + j)
+                got.append(fr[t + j + 1].sig(h.g.bus.r_data))
+            reads.append((t, got[0] if len(got) == 1 else z3.Concat(*reversed(got))))
+
+            def state_at(frame):
+                bits = None
+                for eff, kind, V in events:
+                    if eff > frame:
+                        continue
+                    if kind == "O":
+                        bits = [z3.Extract(k, k, V) for k in range(P)]
+                    elif bits is not None:
+                        bits = [z3.If(z3.Extract(2 * k + 1, 2 * k, V) == 1, bv(1, 1),
+                                      z3.If(z3.Extract(2 * k + 1, 2 * k, V) == 2, bv(1, 0), bits[k])) for k in range(P)]
+                return bits
+            bad = []
+            for frame, val in reads:
+                bits = state_at(frame)
+                if bits is None:
+                    continue          # read before the first write has landed: nothing known about the free state
+                for k in range(P):
+                    bad.append(z3.Extract(k, k, val) != bits[k])
+            return a, z3.Or(*bad) if bad else z3.BoolVal(False)
+        return length, build
+
     def k_setclr(h):
         return nchunks(h, "Output") * 2 + nchunks(h, "SetClr") + 2
 
@@ -205,7 +268,10 @@ def queries(h, cfg):
     return [Q("mode-table-all-pins", k_mode(h), mode_table, twin=mode_twin, max_prefix=2),
             Q("setclr-codes-all-pins", k_setclr(h), setclr, twin=setclr_twin, max_prefix=2),
             Q("input-delayed-exactly", k_input(h), input_delay, twin=input_twin, max_prefix=2),
-            Q("two-setclr-writes-back-to-back", k_setclr(h) + nchunks(h, "SetClr"), setclr_twice, max_prefix=2)]
+            Q("two-setclr-writes-back-to-back", k_setclr(h) + nchunks(h, "SetClr"), setclr_twice, max_prefix=2)] + \
+        ([Q("seq-" + "-".join(ops), seq_query(ops)[0](h), seq_query(ops)[1], max_prefix=2)
+          for ops in (("SW", "OR"), ("SW", "OW"), ("OW", "SW"), ("SW", "OR", "SW"), ("OR", "SW", "OW"), ("SW", "SW", "OR"),
+                      ("OW", "OR"), ("SW", "OW", "OR"))] if (stages == 2 or P >= 17) else [])
 
 
 def check(cfg, out, stats):
